@@ -217,6 +217,9 @@ def toDx9FormatPxOk (c : Nat) (a : AlphaMode) : Bool :=
   | none => true
   | some p => decide (pxOfPf p = dxgiPixelInfo c)
 
+/-- table obligation of `C09.dx_conversion_to_dx9`: for every accepted code and alpha mode the DX9 pixel format that
+`to_dx9` picks (`dxgi_to_four_cc` / `dxgi_to_masked` after `to_linear`) has the pixel info of the code — complete
+evaluation over the translated rows; a row that breaks it fails the build HERE -/
 theorem toDx9Format_px_check :
     ((List.range 256).all fun c => allAlpha.all fun a => toDx9FormatPxOk c a) = true := by
   decide +kernel
@@ -239,12 +242,17 @@ theorem toDx9Format_px {c : Nat} {a : AlphaMode} {p : Dx9PixelFormat} (hv : dxgi
   rw [h] at this
   simpa using this
 
+/-- table obligation of `C09.dx_conversion_to_dx10`: every row of `four_cc_to_dxgi` keeps the pixel info (the four CC
+read as a format has the bytes-per-pixel / block shape of the DXGI code it converts to) -/
 theorem fourCCToDxgi_px_table : ∀ p ∈ fourCCToDxgiTable,
     pxOfPf (.fourCC p.1) = dxgiPixelInfo p.2 := by decide
 
 /-- no row of `KNOWN_PIXEL_FORMATS` is dropped by the conversion of its bit count to `RgbBitCount` -/
 theorem knownPixelFormats_complete : knownPixelFormats.length = SrcTables.knownPixelFormats.length := by decide
 
+/-- table obligation of `C09.dx_conversion_to_dx10`: every row of `KNOWN_PIXEL_FORMATS` with a DXGI code keeps the
+pixel info (`rgb_bit_count / 8` = bytes per pixel of the code); seeded C09h (an alias row with the wrong bit count)
+fails the build HERE -/
 theorem knownPixelFormats_px_table : ∀ r ∈ knownPixelFormats, ∀ d, r.2.1 = some d →
     pxOfPf (.mask r.1) = dxgiPixelInfo d := by decide
 
